@@ -9,6 +9,8 @@
 // memory errors are reported by the tsan / asan flavour of the same run.
 #include "simworld.hpp"
 
+#include "filelayer.h"
+
 #include <atomic>
 #include <sys/stat.h>
 
@@ -252,6 +254,9 @@ namespace {
       const std::string dir = run_dir() + "/c13/";
       ::mkdir(dir.c_str(), 0777);
       write_file(dir + "shared_use.chai", "bump();\ndef from_use(x) { x + 1000 }\n");
+      // file calls of use() under this directory become scheduling points (no faults injected here)
+      fl_reset();
+      fl_track_prefix(dir.c_str());
       auto chai = make_engine({dir});
       std::atomic<int> bumps{0};
       std::vector<ActorState> st(size_t(T) + 1);
@@ -454,6 +459,7 @@ namespace {
 
       local_fail_.assign(size_t(T), "");
       ActorRun ar = run_actors(plan.at("sched"), T, body, r);
+      fl_reset();
       r.event_hash = ar.stats.event_hash;
       recorded_ = ar.recorded;
       r.recorded_sched = ar.recorded;
